@@ -16,8 +16,13 @@
      - after the default action of a signal killed a process, the process does
        nothing more; a subshell starts with the command traps reset.
 
-   A delivery outstanding for a signal whose trap is replaced before it ran is
-   "unknown": the property does not say whether the new action runs. *)
+   [strict] fixes what happens to a delivery outstanding for a signal whose trap
+   is replaced by another command before the action ran (only possible from
+   inside another trap action): strictly read, the property makes the action
+   now in force run (exactly once per delivery); with [strict = false] the
+   outcome is left open ("unknown").  yash-rs forgets such a delivery, so the
+   theorem is proved for [strict = false], the strict reading is refuted on the
+   model, and the run-time check uses the strict reading. *)
 From Yv Require Import Common.Base C11.ScriptModel.
 
 Inductive tri3 := ONo | OYes | OUnknown.
@@ -50,7 +55,7 @@ Definition is_body (a : tact) : bool := match a with TBody _ => true | _ => fals
 
 (* some trapped signal certainly has a delivery outstanding *)
 Definition some_owed (m : mon) : bool :=
-  existsb (fun p => match snd p with
+  existsb (fun p => match owed_of (m_owed m) (fst p) with
                     | OYes => is_body (trap_of (m_cur m) (fst p))
                     | _ => false
                     end) (m_owed m).
@@ -68,7 +73,7 @@ Definition ev_matches (b : bcmd) (e : ev) : bool :=
   end.
 
 (* what an event does to the bookkeeping *)
-Definition effect (m : mon) (e : ev) (md : mode) : mon :=
+Definition effect (strict : bool) (m : mon) (e : ev) (md : mode) : mon :=
   match e with
   | EProbe _ _ arg => mkMon (m_cur m) (m_owed m) arg md (m_dead m)
   | ERaise sg _ arg =>
@@ -80,7 +85,7 @@ Definition effect (m : mon) (e : ev) (md : mode) : mon :=
   | EMark sg a _ =>
       mkMon (set_trap (m_cur m) sg a)
             (match owed_of (m_owed m) sg with
-             | OYes => set_owed (m_owed m) sg OUnknown
+             | OYes => if strict && is_body a then m_owed m else set_owed (m_owed m) sg OUnknown
              | _ => m_owed m
              end)
             0 md (m_dead m)
@@ -131,14 +136,14 @@ Definition next_mode (rest : list bcmd) (saved : N) (m : mon) : mon :=
   | _ => mkMon (m_cur m) (m_owed m) (m_last m) (MBody rest saved) (m_dead m)
   end.
 
-Definition in_body (tbl : table) (m : mon) (e : ev) (rest : list bcmd) (saved : N) : mon + N :=
+Definition in_body (strict : bool) (tbl : table) (m : mon) (e : ev) (rest : list bcmd) (saved : N) : mon + N :=
   match rest with
   | [] => inr R_BODY
   | b :: rest' =>
       if negb (ev_matches b e) then inr R_BODY
       else if negb (N.eqb (ev_before e) (m_last m)) then inr R_STATUS
       else
-        let m1 := effect m e (MBody rest' saved) in
+        let m1 := effect strict m e (MBody rest' saved) in
         match m_dead m1 with
         | Some _ => inl m1
         | None => inl (next_mode rest' saved m1)
@@ -146,12 +151,12 @@ Definition in_body (tbl : table) (m : mon) (e : ev) (rest : list bcmd) (saved : 
   end.
 
 (* one event of one process *)
-Definition mon_event (tbl : table) (m : mon) (e : ev) : mon + N :=
+Definition mon_event (strict : bool) (tbl : table) (m : mon) (e : ev) : mon + N :=
   match m_dead m with
   | Some _ => inr R_AFTER_DEATH
   | None =>
       match m_mode m with
-      | MBody rest saved => in_body tbl m e rest saved
+      | MBody rest saved => in_body strict tbl m e rest saved
       | MMain =>
           match starts_body e with
           | Some id =>
@@ -159,12 +164,12 @@ Definition mon_event (tbl : table) (m : mon) (e : ev) : mon + N :=
               | None => inr R_SPURIOUS
               | Some sg =>
                   let m0 := mkMon (m_cur m) (set_owed (m_owed m) sg ONo) (m_last m) MMain None in
-                  in_body tbl m0 e (body_of tbl id) (m_last m)
+                  in_body strict tbl m0 e (body_of tbl id) (m_last m)
               end
           | None =>
               if some_owed m then inr R_LATE
               else if negb (N.eqb (ev_before e) (m_last m)) then inr R_STATUS
-              else inl (effect m e MMain)
+              else inl (effect strict m e MMain)
           end
       end
   end.
@@ -197,20 +202,20 @@ Definition finish_child (t : top) : top + N :=
       end
   end.
 
-Definition top_event (tbl : table) (t : top) (x : event) : top + N :=
+Definition top_event (strict : bool) (tbl : table) (t : top) (x : event) : top + N :=
   let '(p, e) := x in
   if N.eqb p 0 then
     match finish_child t with
     | inr k => inr k
     | inl t1 =>
-        match mon_event tbl (t_par t1) e with
+        match mon_event strict tbl (t_par t1) e with
         | inl m => inl (mkTop m None (t_next t1))
         | inr k => inr k
         end
     end
   else
     let continue_child (t : top) (cm : mon) :=
-      match mon_event tbl cm e with
+      match mon_event strict tbl cm e with
       | inl cm' => inl (mkTop (t_par t) (Some (p, cm')) (t_next t))
       | inr k => inr k
       end in
@@ -234,17 +239,18 @@ Definition top_event (tbl : table) (t : top) (x : event) : top + N :=
     | None => start_child t
     end.
 
-Fixpoint top_run (tbl : table) (t : top) (l : list event) : top + N :=
+Fixpoint top_run (strict : bool) (tbl : table) (t : top) (l : list event) : top + N :=
   match l with
   | [] => inl t
-  | x :: l => match top_event tbl t x with inl t' => top_run tbl t' l | inr k => inr k end
+  | x :: l =>
+      match top_event strict tbl t x with inl t' => top_run strict tbl t' l | inr k => inr k end
   end.
 
 Definition top_init : top := mkTop (mkMon [] [] 0 MMain None) None 1.
 
 (* the whole trace; [dead] = the main shell did not reach the end of the script *)
-Definition monitor (tbl : table) (trace : list event) (dead : bool) : option N :=
-  match top_run tbl top_init trace with
+Definition monitor (strict : bool) (tbl : table) (trace : list event) (dead : bool) : option N :=
+  match top_run strict tbl top_init trace with
   | inr k => Some k
   | inl t =>
       match finish_child t with
